@@ -84,7 +84,75 @@ def bucket_identity(ctx):
         ctx.oracle_fail(f"two different buckets (values differing in the 11th digit) received identical counts in {same}/{tot} salts", {"same": same, "n": tot}, "bucket-identity")
 
 
+def diagonal_buckets(ctx):
+    """'changing the bucket yields unrelated noise' for buckets with the same midpoint in two dimensions: the low/low quadrant of a 16 x 16 grid table and the
+    high/high quadrant of the mirrored table hold the same entities and the same true count but are different buckets."""
+    import pandas as pd
+    from syndiffix.forest import Forest
+    from syndiffix.counters import UniquePidCountersFactory
+    from syndiffix.common import AnonymizationParams, BucketizationParams
+    R = random.Random(ctx.seed * 31 + 5)
+    S = ctx.stream("O-diagonal", "2-dim tree over two columns 0..15 (16 x 16 grid, one entity per row) and over the mirrored table: count of the quadrant [0,8)x[0,8) vs "
+                   "count of [8,16)x[8,16) of the mirror (same entities, same true count, different bucket), many salts; non-trivial = every pair")
+    xs = [float(i // 16) for i in range(256)]; ys = [float(i % 16) for i in range(256)]
+    same = tot = same_swp = 0
+    for _ in range(ctx.scale(24, 120)):
+        ap = AnonymizationParams(salt=R.getrandbits(64).to_bytes(8, "little"), layer_noise_sd=4.0)
+        got = []; swp = []
+        for mirror in (False, True):
+            df = pd.DataFrame({"x": [15 - v for v in xs] if mirror else xs, "y": [15 - v for v in ys] if mirror else ys})
+            root = Forest(ap, BucketizationParams(), UniquePidCountersFactory(), pd.DataFrame({"RowIndex": range(1, 257)}), df).get_tree((0, 1))
+            want = 8.0 if mirror else 0.0
+            kids = [c for c in getattr(root, "children", {}).values() if c is not None and all(iv.min == want for iv in c.snapped_intervals)]
+            got.append(kids[0].noisy_count() if len(kids) == 1 else None)
+            # the off-diagonal pair: [0,8)x[8,16) of the table and [8,16)x[0,8) of the mirror (same entities again)
+            wantxy = (8.0, 0.0) if mirror else (0.0, 8.0)
+            kids = [c for c in getattr(root, "children", {}).values() if c is not None and tuple(iv.min for iv in c.snapped_intervals) == wantxy]
+            swp.append(kids[0].noisy_count() if len(kids) == 1 else None)
+        if None in got or None in swp: continue
+        tot += 1; same += got[0] == got[1]; same_swp += swp[0] == swp[1]
+        S.count((ap.salt,), True, {"salt": ap.salt, "counts": got, "swapped-range counts": swp})
+    if tot and same > 0.5 * tot:
+        ctx.oracle_fail(f"two different buckets with the same entities ([0,8)x[0,8) and the mirrored [8,16)x[8,16)) received identical counts in {same}/{tot} salts",
+                        {"same": same, "n": tot}, "diagonal-bucket-identity")
+    if tot and same_swp > 0.5 * tot:
+        # F18: the label hash is a function of the SET of midpoint strings (C03_hashStrings_set), so swapping the ranges of two dimensions keeps the bucket seed
+        ctx.oracle_fail(f"the buckets x:[0,8) y:[8,16) and x:[8,16) y:[0,8) (ranges of the two dimensions swapped, same entities) received identical counts in "
+                        f"{same_swp}/{tot} salts", {"same": same_swp, "n": tot}, "swapped-ranges-same-label-set")
+
+
+def insertion_order(ctx):
+    """'the same bucket over the same entities always receives the same noise': count_multiple_contributions must not depend on the order in which the
+    entities' contributions were met (ties across the outlier/top cut included)."""
+    import syndiffix.anonymizer as A
+    from collections import Counter
+    from syndiffix.common import AnonymizationParams, AnonymizationContext, FlatteningInterval
+    R = random.Random(ctx.seed * 37 + 9)
+    S = ctx.stream("O-order", "count_multiple_contributions on the same per-entity contributions (12..40 entities, many equal amounts, a few heavy ones) inserted in two "
+                   "different orders; non-trivial = the counts are not None")
+    for _ in range(ctx.scale(60, 600)):
+        ne = R.randint(12, 40)
+        amounts = [R.choice([1, 2, 2, 2, 3]) for _ in range(ne)]
+        for i in R.sample(range(ne), R.randint(2, 5)): amounts[i] = R.randint(4, 14)
+        ids = R.sample(range(1, 10**6), ne)
+        ap = AnonymizationParams(salt=R.getrandbits(64).to_bytes(8, "little"), outlier_count=FlatteningInterval(R.randint(1, 2), R.randint(3, 5)),
+                                 top_count=FlatteningInterval(R.randint(2, 3), R.randint(4, 6)), layer_noise_sd=R.choice([1.0, 2.0]))
+        actx = AnonymizationContext(U64(R.getrandbits(64)), ap)
+        res = []
+        for order in (list(range(ne)), R.sample(range(ne), ne)):
+            pc = A.PidContributions(); pc.value_counts = Counter(); pc.unaccounted_for = 0
+            for i in order: pc.value_counts[U64(ids[i])] += amounts[i]
+            r = A.count_multiple_contributions(actx, [pc])
+            res.append(None if r is None else (r.anonymized_count, r.noise_sd))
+        S.count((tuple(ids), tuple(amounts), ap.salt), res[0] is not None, {"entities": ne, "amounts": sorted(amounts, reverse=True)[:12], "result": res[0]})
+        if res[0] != res[1]:
+            ctx.oracle_fail(f"the same contributions met in another order gave {res[1]} instead of {res[0]}",
+                            {"ids": ids, "amounts": amounts, "salt": ap.salt, "results": res}, "insertion-order")
+
+
 def run(ctx, built):
+    diagonal_buckets(ctx)
+    insertion_order(ctx)
     bucket_identity(ctx)
     AS.stream_hash(ctx, built)
     AS.stream_cnt(ctx, built, oracle(ctx))
@@ -99,5 +167,5 @@ def run(ctx, built):
 
 def search(ctx, seeds):
     sub = Ctx(ctx.pid, "quick", ctx.seed + 15485863)
-    AS.stream_cnt(sub, False, oracle(sub)); metamorphic(sub); bucket_identity(sub)
+    AS.stream_cnt(sub, False, oracle(sub)); metamorphic(sub); bucket_identity(sub); diagonal_buckets(sub); insertion_order(sub)
     ctx.oracle_failures += sub.oracle_failures
